@@ -238,6 +238,8 @@ def call(pe, name, args, kwargs, node):
   if name in ("range", "tf.range", "np.arange", "K.arange"):
     vals = [a.term[1] if isinstance(a, Tensor) and a.term[0] == "c" else a
             for a in args]
+    if any(isinstance(v, str) or v is None for v in vals):
+      raise PyRaise("TypeError", "range() of %r" % (vals,))
     if not all(is_num(v) for v in vals):
       pe.err("range over non-constant %r" % (vals,), node)
     return list(range(*[int(fr(v)) for v in vals]))
@@ -267,10 +269,33 @@ def call(pe, name, args, kwargs, node):
           d[k] = v
     d.update(kwargs)
     return d
+  if name == "globals":
+    from . import gram
+    return gram.GlobalsDict(pe, pe.cur_module)
+  if name in ("pyparsing.Suppress", "pyparsing.Regex", "pyparsing.Group",
+              "pyparsing.Optional", "pyparsing.delimitedList",
+              "pyparsing.Literal", "pyparsing.Word", "pyparsing.OneOrMore",
+              "pyparsing.ZeroOrMore", "pyparsing.delimited_list"):
+    from . import gram
+    return gram.make(pe, name.split(".")[-1], args, kwargs)
+  if name == "re.sub":
+    import re as _re
+    pat, rep_, text = args[0], args[1], args[2]
+    if all(isinstance(v, str) for v in (pat, rep_, text)):
+      return _re.sub(pat, rep_, text)
+    pe.err("re.sub on non-constant strings", node)
   if name == "float":
     v = args[0]
     if isinstance(v, Tensor):
       return v
+    if isinstance(v, str):
+      try:
+        fv = float(v)
+      except ValueError:
+        raise PyRaise("ValueError", "float(%r)" % v)
+      if fv != fv or fv in (float("inf"), float("-inf")):
+        return Opaque("float " + v)
+      return mkfloat(Fraction(v)) if _is_decimal(v) else mkfloat(fv)
     if isinstance(v, str) or v is None or isinstance(v, (list, dict, Obj)):
       raise PyRaise("TypeError" if not isinstance(v, str) else "ValueError",
                     "float(%r)" % (v,))
@@ -296,15 +321,12 @@ def call(pe, name, args, kwargs, node):
     v = args[0] if args else ""
     if isinstance(v, str):
       return v
-    if isinstance(v, bool) or v is None:
-      return str(v)
-    if isinstance(v, FloatTag):
-      return repr(float(v))
-    if isinstance(v, int):
-      return str(v)
-    if isinstance(v, Fraction):
-      return repr(float(v))
-    return "<str of %s>" % type(v).__name__
+    if isinstance(v, Obj):
+      owner, fn = v.cls.find_method("__str__")
+      if fn is not None:
+        return pe.call_func(Func(fn, owner.module, [], owner.name +
+                                 ".__str__", v, owner), [], {})
+    return py_repr(pe, v)
   if name == "abs":
     return unary(pe, "abs", args[0])
   if name in ("max", "min", "np.maximum", "np.minimum", "tf.maximum",
@@ -643,6 +665,39 @@ def call(pe, name, args, kwargs, node):
               "tf.debugging.assert_greater", "tf.debugging.assert_less"):
     return None
   pe.err("primitive %s is not in the trusted table" % name, node)
+
+
+def _is_decimal(text):
+  try:
+    Fraction(text)
+    return True
+  except (ValueError, ZeroDivisionError):
+    return False
+
+
+def py_repr(pe, v):
+  """str()/repr() of a python-level value as CPython prints it."""
+  if isinstance(v, str):
+    return repr(v)
+  if isinstance(v, bool) or v is None:
+    return str(v)
+  if isinstance(v, FloatTag):
+    return repr(float(v))
+  if isinstance(v, int):
+    return str(v)
+  if isinstance(v, Fraction):
+    return repr(float(v))
+  if isinstance(v, list):
+    return "[" + ", ".join(py_repr(pe, e) for e in v) + "]"
+  if isinstance(v, tuple):
+    return "(" + ", ".join(py_repr(pe, e) for e in v) + \
+        ("," if len(v) == 1 else "") + ")"
+  if isinstance(v, dict):
+    return "{" + ", ".join("%s: %s" % (py_repr(pe, k), py_repr(pe, e))
+                           for k, e in v.items()) + "}"
+  if isinstance(v, Tensor):
+    return "<tensor>"
+  return "<%s>" % type(v).__name__
 
 
 def isinstance_(pe, v, ty):
